@@ -248,7 +248,7 @@ def _cases(draw):
     case = draw(R.reduction_data(min_groups=2, max_groups=3, pairs="free"))
     case["eps"] = draw(st.sampled_from([0.01, 0.02, 0.05, 0.1, 0.2]))
     case["max_iter"] = draw(st.sampled_from([1, 2, 5, 5, 10, 10, 30, 30]))
-    case["nu"] = draw(st.sampled_from([1e-6, 1e-3, 0.05]))
+    case["nu"] = draw(st.sampled_from([1e-6, 1e-3, 0.05, 0.0]))
     case["eta0"] = draw(st.sampled_from([0.5, 2.0, 8.0]))
     case["lp"] = draw(st.booleans())
     case["costs"] = draw(st.sampled_from([None, None, None, {"fp": 0.5, "fn": 1.0}, {"fp": 1.0, "fn": 0.25}, {"fp": 1.0, "fn": 1.0}]))
